@@ -385,6 +385,19 @@ def _linearize(stmts: list, target: Optional[str]) -> list:
                 new.body = [ast.copy_location(ast.Pass(), s)]
             out.append(new)
             return out
+        if isinstance(s, ast.Try) and _returns_in([s]) and not _returns_in(s.finalbody) and not s.orelse and _always_returns([s]):
+            # try: …return a / except: …return b (or raise): every way out of the statement leaves the helper - what follows is dead
+            new = copy.copy(s)
+            new.body = _linearize(s.body, target) or [ast.copy_location(ast.Pass(), s)]
+            new.handlers = []
+            for h in s.handlers:
+                nh = copy.copy(h)
+                nh.body = _linearize(h.body, target) if _returns_in(h.body) else list(h.body)
+                if not nh.body:
+                    nh.body = [ast.copy_location(ast.Pass(), h)]
+                new.handlers.append(nh)
+            out.append(new)
+            return out
         if isinstance(s, (ast.With, ast.AsyncWith)) and _returns_in([s]) and not rest:
             new = copy.copy(s)
             new.body = _linearize(s.body, target)
@@ -408,6 +421,10 @@ def _always_returns(stmts) -> bool:
         return True
     if isinstance(last, ast.If) and last.orelse:
         return _always_returns(last.body) and _always_returns(last.orelse)
+    if isinstance(last, ast.Try) and not last.orelse:
+        return _always_returns(last.body) and all(_always_returns(h.body) for h in last.handlers)
+    if isinstance(last, (ast.With, ast.AsyncWith)):
+        return _always_returns(last.body)
     return False
 
 
@@ -699,6 +716,75 @@ def _instantiate(fn, call, drop_self, target, taken=None):
     return pre + body2
 
 
+def _spread_tuple(stmts, tmp, names):
+    """`tmp = NT(x, y)` / `tmp = (x, y)` in every branch -> `a = x; b = y` (the caller unpacks the result into a, b); None if some
+    binding of tmp is not such a constructor"""
+    okk = [True]
+
+    def elems(v):
+        if isinstance(v, (ast.Tuple, ast.List)) and len(v.elts) == len(names) and not any(isinstance(e, ast.Starred) for e in v.elts):
+            return list(v.elts)
+        if isinstance(v, ast.Call) and not v.keywords and len(v.args) == len(names) and not any(isinstance(e, ast.Starred) for e in v.args) and isinstance(v.func, (ast.Name, ast.Attribute)):
+            nm = v.func.id if isinstance(v.func, ast.Name) else v.func.attr
+            if nm.lstrip("_")[:1].isupper():
+                return list(v.args)
+        if isinstance(v, ast.Call) and v.keywords and not v.args and len(v.keywords) == len(names) and isinstance(v.func, ast.Name) and v.func.id.lstrip("_")[:1].isupper():
+            return None
+        return None
+
+    def fix(block):
+        out = []
+        for st in block:
+            if isinstance(st, ast.Assign) and len(st.targets) == 1 and isinstance(st.targets[0], ast.Name) and st.targets[0].id == tmp:
+                es = elems(st.value)
+                if es is None:
+                    okk[0] = False
+                    out.append(st)
+                    continue
+                # a target that is read by a later element would be clobbered: go through temporaries then
+                hazard = any(isinstance(n, ast.Name) and n.id in names[:i] for i, e in enumerate(es) for n in ast.walk(e))
+                if hazard:
+                    okk[0] = False
+                    out.append(st)
+                    continue
+                for nm, e in zip(names, es):
+                    if not (isinstance(e, ast.Name) and e.id == nm):
+                        out.append(ast.copy_location(ast.Assign(targets=[ast.Name(id=nm, ctx=ast.Store())], value=e, lineno=st.lineno), st))
+                continue
+            if not isinstance(st, FuncT + (ast.ClassDef,)):
+                for field in ("body", "orelse", "finalbody"):
+                    sub = getattr(st, field, None)
+                    if isinstance(sub, list) and sub and isinstance(sub[0], ast.stmt):
+                        nb = fix(sub)
+                        setattr(st, field, nb if (nb or field != "body") else [ast.copy_location(ast.Pass(), st)])
+                if isinstance(st, ast.Try):
+                    for h in st.handlers:
+                        h.body = fix(h.body) or [ast.copy_location(ast.Pass(), h)]
+            out.append(st)
+        return out
+
+    res = fix(copy.deepcopy(stmts))
+    return res if okk[0] else None
+
+
+def _strip_cm_dummy(block):
+    out = []
+    for st in block:
+        if isinstance(st, ast.Assign) and len(st.targets) == 1 and isinstance(st.targets[0], ast.Name) and st.targets[0].id.startswith("__cm"):
+            continue
+        if not isinstance(st, FuncT + (ast.ClassDef,)):
+            for field in ("body", "orelse", "finalbody"):
+                sub = getattr(st, field, None)
+                if isinstance(sub, list) and sub and isinstance(sub[0], ast.stmt):
+                    nb = _strip_cm_dummy(sub)
+                    setattr(st, field, nb if (nb or field != "body") else [ast.copy_location(ast.Pass(), st)])
+            if isinstance(st, ast.Try):
+                for h in st.handlers:
+                    h.body = _strip_cm_dummy(h.body) or [ast.copy_location(ast.Pass(), h)]
+        out.append(st)
+    return out
+
+
 def _drop_self_assign(block):
     out = []
     for s in block:
@@ -788,11 +874,11 @@ def _fuse_generator(fn, call, drop_self, target_node, loop_body, taken=None):
     ystmts = [n for s in body0 for n in [s] + list(_own_walk(s)) if isinstance(n, ast.Expr) and isinstance(n.value, ast.Yield)]
     if len(ystmts) != len(ynodes):
         raise NotInlinable("yield used as an expression")
-    if _returns_in(body0):
-        raise NotInlinable("return inside the generator")
+    gen_returns = bool(_returns_in(body0))
     has_break = bool(_unbound_jumps(loop_body, (ast.Break,)))
     has_continue = bool(_unbound_jumps(loop_body, (ast.Continue,)))
-    if has_break or has_continue:
+    use_region = gen_returns or has_break  # `return` in the generator / `break` in the consumer both end the whole iteration
+    if has_continue:
         parents = _parent_map(fn)
         loops = set()
         for y in ystmts:
@@ -808,8 +894,6 @@ def _fuse_generator(fn, call, drop_self, target_node, loop_body, taken=None):
             loops.add(id(lp))
             if has_continue and not _is_tail(y, lp, parents):
                 raise NotInlinable("continue in the consumer but statements follow the yield")
-            if has_break and not _is_tail(lp, fn, parents):
-                raise NotInlinable("break in the consumer but statements follow the generator's loop")
         if len(loops) != 1:
             raise NotInlinable("yields in several loops")
     pre, body, mapping, rename, suffix = _prepare_body(fn, call, drop_self, taken)
@@ -866,7 +950,51 @@ def _fuse_generator(fn, call, drop_self, target_node, loop_body, taken=None):
             out.append(s)
         return out
 
+    if use_region:
+        # the consumer's own `break` (bound to the fused loop) leaves the whole region
+        brk_ids = {id(b) for b in _unbound_jumps(loop_body, (ast.Break,))}
+        lb_index = {}
+
+        def mark(block, depth):
+            for st in block:
+                if isinstance(st, ast.Break) and depth == 0:
+                    st._region_exit = True  # type: ignore[attr-defined]
+                if isinstance(st, FuncT + (ast.ClassDef,)):
+                    continue
+                d2 = depth + 1 if isinstance(st, LoopT) else depth
+                for field in ("body", "orelse", "finalbody"):
+                    sub = getattr(st, field, None)
+                    if isinstance(sub, list) and sub and isinstance(sub[0], ast.stmt):
+                        mark(sub, d2 if field == "body" else depth)
+                if isinstance(st, ast.Try):
+                    for h in st.handlers:
+                        mark(h.body, depth)
+
+        loop_body = copy.deepcopy(loop_body)
+        mark(loop_body, 0)
     body = fix(body)
+    if use_region:
+        def conv(block):
+            out = []
+            for st in block:
+                if isinstance(st, ast.Return):
+                    out.append(ast.copy_location(RegionExit(), st))
+                    continue
+                if isinstance(st, ast.Break) and getattr(st, "_region_exit", False):
+                    out.append(ast.copy_location(RegionExit(), st))
+                    continue
+                if not isinstance(st, FuncT + (ast.ClassDef,)):
+                    for field in ("body", "orelse", "finalbody"):
+                        sub = getattr(st, field, None)
+                        if isinstance(sub, list) and sub and isinstance(sub[0], ast.stmt):
+                            setattr(st, field, conv(sub))
+                    if isinstance(st, ast.Try):
+                        for h in st.handlers:
+                            h.body = conv(h.body)
+                out.append(st)
+            return out
+
+        body = [ast.copy_location(Region(body=conv(body) or [ast.Pass()]), call)]
     for s in pre + body:
         ast.fix_missing_locations(s)
     return pre + body
@@ -1315,6 +1443,9 @@ class ProgramNormalizer:
         r = self._rewrite_generator_consumer(s, ctx, count)
         if r is not None:
             return r
+        r = self._rewrite_ctxmgr(s, ctx, count)
+        if r is not None:
+            return r
         r = self._rewrite_executor(s, ctx, count)
         if r is not None:
             return r
@@ -1332,6 +1463,25 @@ class ProgramNormalizer:
             v = s.value
             call = v.value if isinstance(v, ast.Await) else v
             wrap = "return"
+        if isinstance(s, ast.Assign) and len(s.targets) == 1 and isinstance(s.targets[0], (ast.Tuple, ast.List)) and all(isinstance(t, ast.Name) for t in s.targets[0].elts):
+            v = s.value
+            c2 = v.value if isinstance(v, ast.Await) else v
+            if isinstance(c2, ast.Call):
+                got = self.callee_of(c2.func, ctx)
+                if got is not None and not _has_yield(got[0]) and isinstance(got[0], ast.AsyncFunctionDef) == isinstance(v, ast.Await):
+                    try:
+                        tmp = f"__tup{_next_suffix()}"
+                        repl = _instantiate(got[0], c2, got[1], tmp, ctx["taken"])
+                        names = [t.id for t in s.targets[0].elts]
+                        repl2 = _spread_tuple(repl, tmp, names)
+                        if repl2 is None:
+                            repl2 = repl + [ast.copy_location(ast.Assign(targets=[s.targets[0]], value=ast.Name(id=tmp, ctx=ast.Load()), lineno=s.lineno), s)]
+                        for o in repl2:
+                            ast.fix_missing_locations(o)
+                        count[0] += 1
+                        return repl2
+                    except NotInlinable as e:
+                        _dbg("helper", got[0].name, "not inlined (tuple target):", e)
         if isinstance(call, ast.Call):
             got = self.callee_of(call.func, ctx)
             if got is not None and not _has_yield(got[0]):
@@ -1396,9 +1546,25 @@ class ProgramNormalizer:
         return None
 
     def _rewrite_generator_consumer(self, s, ctx, count):
-        """X = set(gen(a)) / list / tuple / sorted / frozenset / any / all / sum / ''.join ; X.extend(gen(a)) ; X.update(gen(a))"""
+        """X = set(gen(a)) / list / tuple / sorted / frozenset / any / all / sum / ''.join ; X.extend(gen(a)) ; X.update(gen(a)) ; [*gen(a)]"""
         if not isinstance(s, (ast.Expr, ast.Assign, ast.Return, ast.AugAssign, ast.If)):
             return None
+        # [*gen(a)] / {*gen(a)} / (*gen(a),) -> list(gen(a)) / set(gen(a)) / tuple(gen(a))
+        head0 = s.test if isinstance(s, ast.If) else getattr(s, "value", None)
+        if head0 is not None:
+            for n in ast.walk(head0):
+                if isinstance(n, (ast.List, ast.Set, ast.Tuple)) and len(n.elts) == 1 and isinstance(n.elts[0], ast.Starred) and isinstance(n.elts[0].value, ast.Call):
+                    g0 = n.elts[0].value
+                    got0 = self.callee_of(g0.func, ctx)
+                    if got0 is not None and _has_yield(got0[0]):
+                        ctor = {"List": "list", "Set": "set", "Tuple": "tuple"}[type(n).__name__]
+                        new = ast.copy_location(ast.Call(func=ast.Name(id=ctor, ctx=ast.Load()), args=[g0], keywords=[]), n)
+                        if isinstance(s, ast.If):
+                            s.test = _replace_node(s.test, n, new)
+                        else:
+                            s.value = _replace_node(s.value, n, new)
+                        ast.fix_missing_locations(s)
+                        break
         head = s.test if isinstance(s, ast.If) else getattr(s, "value", None)
         if head is None:
             return None
@@ -1447,6 +1613,61 @@ class ProgramNormalizer:
             except NotInlinable as e:
                 _dbg("generator consumer", got[0].name, "not fused:", e)
         return None
+
+    def _rewrite_ctxmgr(self, s, ctx, count):
+        """`with helper(a) as x: BODY` where helper is a *new* @contextmanager / @asynccontextmanager generator with a single `yield`:
+        the helper's body with the yield replaced by `x = <yielded>; BODY` (an exception raised in BODY surfaces at the yield, i.e.
+        inside whatever try/finally of the helper encloses it - exactly the spliced code)"""
+        if not isinstance(s, (ast.With, ast.AsyncWith)) or len(s.items) != 1:
+            return None
+        it = s.items[0]
+        c = it.context_expr
+        if not isinstance(c, ast.Call):
+            return None
+        mod, cd, fn = ctx["mod"], ctx["cls"], ctx["fn"]
+        callee = None
+        drop_self = False
+        f = c.func
+        if isinstance(f, ast.Name):
+            r = self.resolve(mod, f.id)
+            if r and r[0] == "func":
+                callee, cmod, q = r[2], r[1], r[2].name
+        elif isinstance(f, ast.Attribute) and isinstance(f.value, ast.Name) and f.value.id in ("self", "cls") and cd is not None:
+            got = self.class_method(mod, cd, f.attr)
+            if got:
+                cmod, c2, callee = got
+                q = f"{c2.name}.{callee.name}"
+                drop_self = not any(isinstance(x, ast.Name) and x.id == "staticmethod" for x in callee.decorator_list)
+        elif isinstance(f, ast.Attribute) and isinstance(f.value, ast.Name):
+            r = self.resolve(mod, f.value.id)
+            if r and r[0] == "module" and f.attr in self.funcs.get(r[1], {}):
+                callee, cmod, q = self.funcs[r[1]][f.attr], r[1], f.attr
+        if callee is None or f"{cmod}:{q}" in self.known or self._moved_known(q):
+            return None
+        decos = [ast.unparse(d).split(".")[-1] for d in callee.decorator_list if not (isinstance(d, ast.Name) and d.id in ("staticmethod", "classmethod"))]
+        want = "asynccontextmanager" if isinstance(s, ast.AsyncWith) else "contextmanager"
+        if decos != [want] or isinstance(callee, ast.AsyncFunctionDef) != isinstance(s, ast.AsyncWith):
+            return None
+        ys = _yield_nodes(callee)
+        if len(ys) != 1 or isinstance(ys[0], ast.YieldFrom):
+            return None
+        try:
+            target = it.optional_vars if it.optional_vars is not None else ast.Name(id=f"__cm{_next_suffix()}", ctx=ast.Store())
+            body = list(s.body)
+            if it.optional_vars is None and ys[0].value is None:
+                # nothing is bound: fuse without the dummy assignment by using a single-use target that the body never reads
+                pass
+            r = _fuse_generator(callee, c, drop_self, target, body, ctx["taken"])
+            if it.optional_vars is None:
+                r = [x for x in r if not (isinstance(x, ast.Assign) and isinstance(x.targets[0], ast.Name) and x.targets[0].id.startswith("__cm"))]
+                r = _strip_cm_dummy(r)
+            count[0] += 1
+            for o in r:
+                ast.fix_missing_locations(o)
+            return r
+        except NotInlinable as e:
+            _dbg("context manager", callee.name, "not inlined:", e)
+            return None
 
     def _rewrite_executor(self, s, ctx, count):
         """loop.run_in_executor(ex, helper, a, b) / asyncio.to_thread(helper, a, b) with a new helper: the helper becomes a local
@@ -1693,6 +1914,111 @@ class ProgramNormalizer:
                 n_total += len(ren)
         return n_total
 
+    def scalarize_records(self, only=None):
+        """N3: a local bound once to a constructor call of a *record class that did not exist at freeze time* (typing.NamedTuple subclass,
+        collections.namedtuple, @dataclass) and used only through `x.field` reads is replaced by one local per field
+        (`seen = _Seen(relay=a, challenge=b) … seen.relay` -> `seen__relay = a … seen__relay`)."""
+        n_total = 0
+        for mod, tree in self.trees.items():
+            if only is not None and mod not in only:
+                continue
+            records = {}
+            for st in tree.body:
+                if isinstance(st, ast.ClassDef) and f"{mod}:{st.name}" not in self.known_classes():
+                    bases = [ast.unparse(b) for b in st.bases]
+                    is_nt = any(b.split(".")[-1] == "NamedTuple" for b in bases)
+                    is_dc = any(ast.unparse(d).split("(")[0].split(".")[-1] == "dataclass" for d in st.decorator_list)
+                    if is_nt or is_dc:
+                        fields = [a.target.id for a in st.body if isinstance(a, ast.AnnAssign) and isinstance(a.target, ast.Name)]
+                        if fields and not any(isinstance(x, FuncT) for x in st.body):
+                            records[st.name] = fields
+                elif isinstance(st, ast.Assign) and len(st.targets) == 1 and isinstance(st.targets[0], ast.Name) and isinstance(st.value, ast.Call) \
+                        and ast.unparse(st.value.func).split(".")[-1] == "namedtuple" and len(st.value.args) >= 2:
+                    fa = st.value.args[1]
+                    fields = None
+                    if isinstance(fa, (ast.Tuple, ast.List)) and all(isinstance(x, ast.Constant) and isinstance(x.value, str) for x in fa.elts):
+                        fields = [x.value for x in fa.elts]
+                    elif isinstance(fa, ast.Constant) and isinstance(fa.value, str):
+                        fields = fa.value.replace(",", " ").split()
+                    if fields:
+                        records[st.targets[0].id] = fields
+            if not records:
+                continue
+            for fn, cd in self._all_defs(tree):
+                binds = {}
+                for st in _own_walk(fn):
+                    if isinstance(st, ast.Assign) and len(st.targets) == 1 and isinstance(st.targets[0], ast.Name) and isinstance(st.value, ast.Call) and isinstance(st.value.func, ast.Name) and st.value.func.id in records:
+                        binds.setdefault(st.targets[0].id, []).append(st)
+                for name, sts in binds.items():
+                    if len(sts) != 1:
+                        continue
+                    st = sts[0]
+                    fields = records[st.value.func.id]
+                    if any(isinstance(a, ast.Starred) for a in st.value.args) or any(k.arg is None for k in st.value.keywords) or len(st.value.args) > len(fields):
+                        continue
+                    vals = dict(zip(fields, st.value.args))
+                    for k in st.value.keywords:
+                        vals[k.arg] = k.value
+                    if set(vals) != set(fields):
+                        continue
+                    # every other occurrence of the name is a `name.field` read
+                    uses = [x for x in _own_walk(fn) if isinstance(x, ast.Name) and x.id == name and x is not st.targets[0]]
+                    pm = _parent_map(fn)
+                    if not uses or not all(isinstance(pm.get(id(u)), ast.Attribute) and pm[id(u)].attr in fields and isinstance(pm[id(u)].ctx, ast.Load) for u in uses):
+                        continue
+                    stores = sum(1 for x in _own_walk(fn) if isinstance(x, ast.Name) and x.id == name and isinstance(x.ctx, ast.Store))
+                    if stores != 1:
+                        continue
+
+                    class R(ast.NodeTransformer):
+                        def visit_Attribute(self, node):
+                            self.generic_visit(node)
+                            if isinstance(node.value, ast.Name) and node.value.id == name and node.attr in fields:
+                                return ast.copy_location(ast.Name(id=f"{name}__{node.attr}", ctx=ast.Load()), node)
+                            return node
+
+                        def visit_FunctionDef(self, node):
+                            return node
+
+                        visit_AsyncFunctionDef = visit_FunctionDef
+                        visit_Lambda = visit_FunctionDef
+
+                    def fix(block):
+                        out = []
+                        for b in block:
+                            if b is st:
+                                for f in fields:
+                                    out.append(ast.copy_location(ast.Assign(targets=[ast.Name(id=f"{name}__{f}", ctx=ast.Store())], value=vals[f], lineno=st.lineno), st))
+                                continue
+                            if not isinstance(b, FuncT + (ast.ClassDef,)):
+                                for field in ("body", "orelse", "finalbody"):
+                                    sub = getattr(b, field, None)
+                                    if isinstance(sub, list) and sub and isinstance(sub[0], ast.stmt):
+                                        setattr(b, field, fix(sub))
+                                if isinstance(b, ast.Try):
+                                    for h in b.handlers:
+                                        h.body = fix(h.body)
+                            out.append(R().visit(b))
+                        return out
+
+                    fn.body = fix(fn.body)
+                    ast.fix_missing_locations(fn)
+                    n_total += 1
+        return n_total
+
+    def known_classes(self):
+        kc = self.__dict__.get("_known_classes")
+        if kc is None:
+            kc = {k.rsplit(".", 1)[0] for k in self.known if "." in k.split(":")[1]}
+            # classes without methods at freeze time are not in the function table: load the explicit list if present
+            try:
+                with open(os.path.join(HERE, "known_classes.json")) as fp:
+                    kc |= set(json.load(fp))
+            except FileNotFoundError:
+                pass
+            self.__dict__["_known_classes"] = kc
+        return kc
+
     def fold_new_temporaries(self, only=None):
         """N0c: inside an audited function, a *new* local (not among the audited locals) that is bound once by a plain assignment and
         read once, in the head expression of the very next statement, is substituted back (`t = f(x); if t:` -> `if f(x):`)."""
@@ -1767,6 +2093,39 @@ class ProgramNormalizer:
                 fn.body = fix(fn.body)
         return n_total
 
+    def split_with_items(self, focus=None):
+        """`with a as x, b as y: BODY` -> `with a as x:` / `with b as y: BODY` (same semantics; one context per statement is the
+        form the rules were written against)"""
+        n = 0
+
+        class T(ast.NodeTransformer):
+            def _split(self, node):
+                nonlocal n
+                self.generic_visit(node)
+                if len(node.items) > 1:
+                    n += 1
+                    inner = node
+                    cls = type(node)
+                    body = node.body
+                    for it in reversed(node.items[1:]):
+                        w = cls(items=[it], body=body, type_comment=None)
+                        ast.copy_location(w, node)
+                        body = [w]
+                    node.items = node.items[:1]
+                    node.body = body
+                return node
+
+            visit_With = _split
+            visit_AsyncWith = _split
+
+        for mod, tree in self.trees.items():
+            if focus is not None and mod not in focus:
+                continue
+            T().visit(tree)
+            if n:
+                ast.fix_missing_locations(tree)
+        return n
+
     def propagate_all(self, focus=None):
         """N1 for every (focused) module"""
         for mod, tree in self.trees.items():
@@ -1786,6 +2145,7 @@ class ProgramNormalizer:
         if focus is None:
             self.rename_back()
         self.propagate_all(focus)
+        self.split_with_items(focus)
         self.rename_locals_back(only=focus)
         self.fold_new_temporaries(only=focus)
         if not self.known:
@@ -1803,6 +2163,15 @@ class ProgramNormalizer:
                     if isinstance(st, FuncT) and self.is_new(mod, f"{cname}.{st.name}", st):
                         new_names.add(st.name)
                         new_in_focus = new_in_focus or (focus is not None and mod in focus)
+        # new generator-based context managers (decorated, hence not `new helpers` in the sense of is_new) are inlined at their with-statements
+        for mod, tree in self.trees.items():
+            for name, fn_ in self.funcs[mod].items():
+                if f"{mod}:{name}" not in self.known and any(ast.unparse(d).split(".")[-1] in ("contextmanager", "asynccontextmanager") for d in fn_.decorator_list):
+                    new_names.add(name)
+            for cname, cd_ in self.classes[mod].items():
+                for st in cd_.body:
+                    if isinstance(st, FuncT) and f"{mod}:{cname}.{st.name}" not in self.known and any(ast.unparse(d).split(".")[-1] in ("contextmanager", "asynccontextmanager") for d in st.decorator_list):
+                        new_names.add(st.name)
         # tables of helpers (dispatch dicts / tuples bound at module or class level) are entry points to them as well
         if new_names:
             base_names = set(new_names)
@@ -1845,6 +2214,8 @@ class ProgramNormalizer:
                 break
         if total:
             self._drop_orphans()
+        self.scalarize_records(only=focus)
+        self.fold_new_temporaries(only=focus)
         return self.stats
 
     def _all_defs(self, tree):
@@ -1892,13 +2263,18 @@ class ProgramNormalizer:
         for mod, tree in self.trees.items():
             if self.focus is not None and mod not in self.focus:
                 continue
+            def droppable(q, d):
+                if self.is_new(mod, q, d):
+                    return True
+                return f"{mod}:{q}" not in self.known and not self._moved_known(q) and any(ast.unparse(x).split(".")[-1] in ("contextmanager", "asynccontextmanager") for x in d.decorator_list)
+
             for st in list(tree.body):
-                if isinstance(st, FuncT) and self.is_new(mod, st.name, st):
+                if isinstance(st, FuncT) and droppable(st.name, st):
                     if refs.get(st.name, 0) - self_refs(st) <= 0:
                         tree.body.remove(st)
                 elif isinstance(st, ast.ClassDef):
                     for sub in list(st.body):
-                        if isinstance(sub, FuncT) and self.is_new(mod, f"{st.name}.{sub.name}", sub):
+                        if isinstance(sub, FuncT) and droppable(f"{st.name}.{sub.name}", sub):
                             if refs.get(sub.name, 0) - self_refs(sub) <= 0:
                                 st.body.remove(sub)
                     if not st.body:
